@@ -718,6 +718,16 @@ pub fn gen_output_case(r: &mut Rng, thorough: bool) -> Case {
     if r.chance(1, 25) {
         crate::gen::without_epb_use(&mut case.spec, r);
     }
+    // a file that declares delivered energy and needs only (no consumption, production or auxiliaries): it evaluates, no
+    // carrier takes part, every table and map is empty
+    if r.chance(1, 40) {
+        use crate::spec::Line;
+        case.spec.lines.retain(|l| matches!(l, Line::Out { .. } | Line::Need { .. }));
+        if !case.spec.lines.iter().any(|l| matches!(l, Line::Out { .. })) {
+            case.spec.lines.push(Line::Out { id: 1, srv: "CAL".into(), v: vec![10.0; case.spec.n], comment: String::new() });
+        }
+        return case;
+    }
     // several biomass DHW systems (either kind of biomass) without declared output: the error text saved in the
     // JSON / printed in the report must be the same on every run
     if r.chance(1, 25) {
